@@ -401,7 +401,7 @@ Proof.
 Qed.
 
 (* ================================================================== 5 == *)
-Theorem legacy_fusion_refuted : exists g p1 p2 b, let c := mkCfg true true false true in
+Theorem legacy_fusion_refuted : exists g p1 p2 b, let c := mkCfg true true false true true in
   sc_tag (fst p2) = Some (s "Contaminant") /\ sc_rows (fst p2) <> [] /\
   aget fuse_key_eqb (fold_left (fuse_step c g) [p1; p2] []) (None, sc_hap (fst p2), sc_name (fst p2)) = Some b
   /\ sc_tag b = None /\ (exists pre, sc_rows b = pre ++ sc_rows (fst p2)).
